@@ -34,8 +34,14 @@ NDSize DataView::transform_coordinates(const NDSize &cnt, const NDSize &off) con
         return offset;
 
     } else {
-        if (cnt + off > count) {
+        if (cnt.size() != count.size() || off.size() != count.size()) {
             throw OutOfBounds("Trying to access data outside of range", 0);
+        }
+        for (size_t i = 0; i < count.size(); i++) {
+            // written without cnt + off, which can wrap around
+            if (off[i] > count[i] || cnt[i] > count[i] - off[i]) {
+                throw OutOfBounds("Trying to access data outside of range", 0);
+            }
         }
 
         return offset + off;
